@@ -83,3 +83,15 @@ package unused
 //@   loop 1   invariant [used_complete]  forall i int :: {g.nodes[i]} 1 <= i && i < k + 1 && seen(states[i]) ==> objIn(res.Used, g.nodes[i].obj)
 //@   loop 1   invariant [unused_complete] forall i int :: {g.nodes[i]} 1 <= i && i < k + 1 && !seen(states[i]) && !bit(states[i], 1) ==> objIn(res.Unused, g.nodes[i].obj)
 //@   loop 1   invariant [count] len(res.Used) + len(res.Quiet) + len(res.Unused) == k
+
+//@ prop C03
+
+// (*graph).stmt strips every enclosing label before the type switch; its default branch
+// (lint.ExhaustiveTypeSwitch, which panics) must therefore be unreachable for labelled
+// statements, which occur in valid programs.
+//@ func (*graph).stmt
+//@   nosafe   all
+//@   noinline
+//@   may_panic
+//@   modifies heap
+//@   at call lint.ExhaustiveTypeSwitch#2 assert [nolabel] !istype(stmt, *ast.LabeledStmt)
